@@ -24,9 +24,10 @@ type vfC12Call struct {
 }
 
 type vfCaseC12 struct {
-	Opts    vfOpts
-	FileLen int
-	Calls   []vfC12Call
+	Opts       vfOpts
+	FileLen    int
+	Calls      []vfC12Call
+	CloseFails bool `json:",omitempty"` // the server answers the CLOSE with a failure status (seed C12-c): the File is closed all the same
 }
 
 const vfC12Seed = 77
@@ -36,6 +37,7 @@ func vfGenC12(t *rapid.T) vfCaseC12 {
 	c := vfCaseC12{Opts: vfGenSmallOpts(t)}
 	mp := c.Opts.MaxPacket
 	c.FileLen = rapid.SampledFrom([]int{0, 1, mp - 1, mp, mp + 1, 2*mp + 3, 3 * mp, 5*mp + 1}).Draw(t, "filelen")
+	c.CloseFails = rapid.IntRange(0, 5).Draw(t, "closefails") == 0
 	n := rapid.IntRange(1, 20).Draw(t, "ncalls")
 	lens := []int{0, 1, 2, mp - 1, mp, mp + 1, 2 * mp, 2*mp + 1, 3*mp + 2}
 	for i := 0; i < n; i++ {
@@ -69,6 +71,14 @@ func vfRunC12(ctx *vfCtx, c vfCaseC12) {
 	mp := c.Opts.MaxPacket
 	s, err := vfStartSession(c.Opts, func(p *vfPeer, l *vfLink) {
 		p.addFile("/t", vfPRFBytes(vfC12Seed, 0, c.FileLen))
+		if c.CloseFails {
+			p.mutate = func(idx int, req *vfPkt, frame []byte) []byte {
+				if req.Type == vfFxpClose {
+					return vfEncode(vfStatus(req.ID, vfFxFailure, "close refused"))
+				}
+				return frame
+			}
+		}
 	})
 	if err != nil {
 		ctx.Failf("harness/handshake", "%v", err)
@@ -262,7 +272,7 @@ func vfRunC12(ctx *vfCtx, c vfCaseC12) {
 					expectClosed(err)
 					return
 				}
-				if err != nil {
+				if err != nil && !c.CloseFails {
 					ctx.Failf(key+"/result", "%s failed: %v", desc, err)
 				}
 				closed = true
@@ -279,7 +289,7 @@ func vfRunC12(ctx *vfCtx, c vfCaseC12) {
 		}
 		// finally: close (if still open) and call every exported method once more
 		if !closed {
-			if err := f.Close(); err != nil {
+			if err := f.Close(); err != nil && !c.CloseFails {
 				ctx.Failf("C12/Close/result", "final Close failed: %v", err)
 			}
 			closed = true
